@@ -117,6 +117,10 @@ pub struct FCase {
     /// read path fails there and the writer falls back to /proc/pid/mem): (pages, offset, length)
     #[serde(default)]
     pub sealed_app: Option<(u8, u32, u32)>,
+    /// the kernel refuses the register-set interface to the dumping thread for the general-purpose set
+    /// (bit 0) and/or the floating-point set (bit 1): the writer's second interface has to answer
+    #[serde(default)]
+    pub refuse_regsets: u8,
 }
 
 pub const ODD_SPS: [u64; 6] = [u64::MAX, 1, 7, 1 << 63, 0xffff_8000_0000_0000, u64::MAX - 7];
@@ -194,6 +198,10 @@ pub fn run_case(c: &FCase) -> Result<Obs, RunErr> {
             let th = b.thread_mut(id);
             th.sp = sp;
             th.aux = 0; // set below: app word
+        }
+        if t.kind == K_PARKED && t.seed % 3 == 0 {
+            // every third parked thread has a GS base of its own (its GS selector stays 0)
+            b.thread_mut(id).aux = (t.seed.wrapping_mul(0x9E37_79B9_7F4A_7C15) & 0x3fff_ffff_ffff) | 0x1_0000_0001;
         }
         stacks.push(st);
         ids.push((id, t.kind, sp));
@@ -367,7 +375,7 @@ pub fn run_case(c: &FCase) -> Result<Obs, RunErr> {
             return Err(RunErr::Inconclusive("target did not settle between two dumps".into()));
         }
     }
-    let out = with_failspots(failmask, || with_hook(hook, || run_dump(&mut w, &mut dest)));
+    let out = with_refused_regsets(c.refuse_regsets, || with_failspots(failmask, || with_hook(hook, || run_dump(&mut w, &mut dest))));
     let img = match out {
         DumpOutcome::Ok(v) => v,
         DumpOutcome::Err(e) => return Err(RunErr::DumpErr(e)),
@@ -471,7 +479,7 @@ pub fn case_strategy(max_threads: usize, min_threads: usize) -> impl Strategy<Va
                     }
                 }
             }
-            FCase { threads, blamed, crash, limit, app_maps, app, ip_map_pages, stop_failspot, cue_exiters, ip_neighbors, second_dump, odd_sp: None, file_stack: None, sealed_app: None }
+            FCase { threads, blamed, crash, limit, app_maps, app, ip_map_pages, stop_failspot, cue_exiters, ip_neighbors, second_dump, odd_sp: None, file_stack: None, sealed_app: None, refuse_regsets: 0 }
         })
 }
 
